@@ -182,7 +182,7 @@ func TestC11(t *testing.T) {
 	curProp = "C11"
 	r := vf.NewRec("C11")
 	defer r.Finish(t)
-	guard.StartWatchdog(*vf.Out, "C11")
+	guard.StartWatchdog(*vf.Out, vf.Label("C11"))
 
 	for _, rf := range r.LoadReplays(t) {
 		var c caseC11
